@@ -1,65 +1,84 @@
 (* C10 — a replayed secured chunk is never delivered twice.
-   model : Model.RecvChan.accepted — readChunk hands on exactly the chunks that some stored instance of the chunk's channel id
-           verifies; the sequence number is decoded (SequenceHeader.Decode) and never compared with anything.
-   The full statement is FALSE of the code (known finding replay-accepted, see known_findings.txt): C10_refuted_replay.
-   C10_partial_no_replay is what does hold. *)
+   model : Model.RecvChan.accept_seq — readChunk hands a chunk on iff some stored instance of its channel id verifies it AND
+           its sequence number passes checkSequenceNumber (greater than the last accepted number of the channel, or the
+           roll-over of Part 6, 6.7.2.4; the first chunk initialises); only then the remembered number advances.
+   [accepted_prefix] is the receive path before the check existed (fixed: see known_findings.txt): C10_refuted_before_fix. *)
 From Coq Require Import NArith ZArith List Bool Lia Sorting.Sorted.
-From Opcua Require Import Model.RecvBase Model.RecvMerge Model.RecvChan Proofs.RecvBaseProofs Proofs.RecvChanProofs.
+From Opcua Require Import Model.RecvBase Model.RecvCrypto Model.RecvMerge Model.RecvChan Model.RecvFrame
+  Proofs.RecvBaseProofs Proofs.RecvChanProofs Proofs.RecvFrameProofs.
 Import ListNotations.
 Open Scope N_scope.
 
-(* s' may be accepted after s: larger, or the roll-over of Part 6, 6.7.2.4 *)
-Definition seq_after (s s' : N) : Prop := s < s' \/ (4294966271 <= s /\ s' < 1024).
-Fixpoint increasing (l : list N) : Prop :=
-  match l with a :: ((b :: _) as r) => seq_after a b /\ increasing r | _ => True end.
+(* EVERY receive history: any chunks in any order, copies inserted anywhere, each occurrence verifying or not (so token
+   renewals and expiries between the chunks are covered): the sequence numbers of the chunks handed on strictly increase,
+   modulo the roll-over rule. *)
+Theorem C10_increasing : forall (h : list (bool * chunk)), increasing (map ck_seq (accept_seq None h)).
+Proof. intros h. apply (incr_from_increasing _ None). apply accept_seq_incr. Qed.
 
-(* The property: whatever history of chunks reaches a channel (the adversary may insert copies of earlier chunks anywhere),
-   the sequence numbers of the chunks the receive path accepts strictly increase. *)
+(* The same at byte level (Model.RecvFrame.read_frame = readChunk): any stream of frames, any channel state (client or server,
+   any mode incl. None, any instances, OPN chunks of renewals included): the numbers of the chunks readChunk hands on
+   strictly increase modulo the roll-over rule. *)
+Theorem C10_frames_increasing : forall un af st frames, increasing (frame_seqs un af st frames).
+Proof. intros. apply (incr_from_increasing _ (f_last st)). apply frame_seqs_incr. Qed.
+
+(* the same for a channel state with its instance table (the property's statement) *)
 Definition C10_statement : Prop :=
   forall (s : cstate) (h : list schunk), increasing (map ck_seq (accepted s h)).
+Theorem C10_full : C10_statement.
+Proof. intros s h. apply C10_increasing. Qed.
 
+(* No chunk is delivered twice: as long as the numbers stay below the roll-over zone the accepted numbers are strictly
+   sorted, hence pairwise distinct — a verbatim copy of an accepted chunk, immediately or later, is never accepted. *)
+Theorem C10_no_chunk_twice : forall (h : list (bool * chunk)),
+  Forall (fun x => x < 4294966271) (map ck_seq (accept_seq None h)) ->
+  StronglySorted N.lt (map ck_seq (accept_seq None h)) /\ NoDup (map ck_seq (accept_seq None h)).
+Proof.
+  intros h Hb. destruct (incr_from_sorted _ None (accept_seq_incr h None) Hb) as [Hs _].
+  assert (Hss : StronglySorted N.lt (map ck_seq (accept_seq None h))).
+  { apply Sorted_StronglySorted; [|exact Hs]. intros x y z. apply N.lt_trans. }
+  split; [exact Hss|].
+  clear Hb Hs. induction Hss as [|a l Hl IH Hall]; constructor; [|exact IH].
+  intro Hin. rewrite Forall_forall in Hall. specialize (Hall a Hin). lia.
+Qed.
+
+(* nothing is accepted that no stored instance verified *)
+Theorem C10_only_verified : forall (s : cstate) (h : list schunk) c,
+  In c (accepted s h) -> exists x, In x h /\ sc_chunk x = c /\ accepts s (sc_chan x) (sc_key x) = true.
+Proof.
+  intros s h c. unfold accepted. generalize (@None N). induction h as [|x r IH]; intros last H; [destruct H|].
+  cbn [map accept_seq] in H. destruct (accepts s (sc_chan x) (sc_key x)) eqn:E; cbn [andb] in H.
+  - destruct (seq_ok last (ck_seq (sc_chunk x))).
+    + destruct H as [<-|H]; [exists x; repeat split; [now left|exact E]|].
+      destruct (IH _ H) as (y & H1 & H2). exists y. split; [now right|exact H2].
+    + destruct (IH _ H) as (y & H1 & H2). exists y. split; [now right|exact H2].
+  - destruct (IH _ H) as (y & H1 & H2). exists y. split; [now right|exact H2].
+Qed.
+
+(* The defect that was repaired: before the check, readChunk accepted exactly what verified, so the history [c; c] was
+   accepted, and delivered, twice. *)
+Definition increasing_before_fix : Prop :=
+  forall (s : cstate) (h : list schunk), increasing (map ck_seq (accepted_prefix s h)).
 Definition w_state : cstate := cstep true (cinit 0) (Install 7 9 0 0 3600000000000).
 Definition w_chunk : schunk := {| sc_chan := 7; sc_key := 0; sc_chunk := Build_chunk CT_F 5 6 [1;2;3] |}.
-
-Theorem C10_refuted_replay : ~ C10_statement.
+Theorem C10_refuted_before_fix : ~ increasing_before_fix.
 Proof.
   intro H. specialize (H w_state [w_chunk; w_chunk]).
-  replace (map ck_seq (accepted w_state [w_chunk; w_chunk])) with [5; 5] in H by (vm_compute; reflexivity).
+  replace (map ck_seq (accepted_prefix w_state [w_chunk; w_chunk])) with [5; 5] in H by (vm_compute; reflexivity).
   cbn [increasing] in H. unfold seq_after in H. lia.
 Qed.
 
-(* ... and the copy is not just accepted but delivered to the application a second time *)
-Example C10_replay_delivered_twice :
-  snd (recv_all 16 1048576 [] (accepted w_state [w_chunk; w_chunk])) = [RDeliver 6 [1;2;3]; RDeliver 6 [1;2;3]].
-Proof. vm_compute. reflexivity. Qed.
+(* now: the copy is rejected, immediately and after later chunks; a roll-over is accepted *)
+Example C10_nonvacuous :
+  let c6 := {| sc_chan := 7; sc_key := 0; sc_chunk := Build_chunk CT_F 6 7 [4] |} in
+  accepted w_state [w_chunk; w_chunk; c6; w_chunk; c6] = [sc_chunk w_chunk; sc_chunk c6] /\
+  snd (recv_all 16 1048576 [] (accepted w_state [w_chunk; w_chunk])) = [RDeliver 6 [1;2;3]] /\
+  map ck_seq (seq_filter [Build_chunk CT_F 4294966272 1 []; Build_chunk CT_F 0 2 []; Build_chunk CT_F 1 3 []; Build_chunk CT_F 0 2 []])
+    = [4294966272; 0; 1].
+Proof. vm_compute. split; [reflexivity|split; reflexivity]. Qed.
 
-(* What holds: the receive path adds nothing of its own — it accepts a sub-sequence of the history, in order (each occurrence
-   at most once), so without inserted copies and re-ordering (numbers of the history strictly increasing) the accepted
-   numbers strictly increase, on any channel state. *)
-Theorem C10_partial_no_replay : forall (s : cstate) (h : list schunk),
-  StronglySorted N.lt (map (fun c => ck_seq (sc_chunk c)) h) ->
-  StronglySorted N.lt (map ck_seq (accepted s h)) /\ (length (accepted s h) <= length h)%nat.
-Proof.
-  intros s h Hs. split.
-  - unfold accepted. rewrite map_map. apply map_StronglySorted. apply filter_StronglySorted.
-    clear s. induction h as [|a h IH]; [constructor|]. cbn [map] in Hs. inversion Hs as [|x l Hl Hall]; subst.
-    constructor; [now apply IH|]. rewrite Forall_forall in *. intros y Hy. apply Hall. apply in_map_iff. exists y. auto.
-  - unfold accepted. rewrite map_length. clear Hs. induction h as [|a h IH]; cbn [filter length]; [lia|]. destruct (accepts s (sc_chan a) (sc_key a)); cbn [length]; lia.
-Qed.
-
-(* chunks no stored instance verifies are never accepted, replayed or not *)
-Theorem C10_partial_only_verified : forall (s : cstate) (h : list schunk) c,
-  In c (accepted s h) -> exists x, In x h /\ sc_chunk x = c /\ accepts s (sc_chan x) (sc_key x) = true.
-Proof.
-  intros s h c H. unfold accepted in H. apply in_map_iff in H. destruct H as (x & H1 & H2).
-  apply filter_In in H2. exists x. tauto.
-Qed.
-
-Example C10_partial_nonvacuous :
-  StronglySorted N.lt (map (fun c => ck_seq (sc_chunk c))
-     [w_chunk; {| sc_chan := 7; sc_key := 0; sc_chunk := Build_chunk CT_F 6 7 [4] |}]).
-Proof. repeat constructor. Qed.
-
-Print Assumptions C10_refuted_replay.
-Print Assumptions C10_partial_no_replay.
-Print Assumptions C10_partial_only_verified.
+Print Assumptions C10_increasing.
+Print Assumptions C10_frames_increasing.
+Print Assumptions C10_full.
+Print Assumptions C10_no_chunk_twice.
+Print Assumptions C10_only_verified.
+Print Assumptions C10_refuted_before_fix.
